@@ -440,7 +440,23 @@ func (s *kvSubj[K]) keyIter() containers.IteratorWithKey[K, string] {
 
 func (s *kvSubj[K]) pairStr(k K, v string) string { return s.kclass(k) + "=" + strconv.Quote(v) }
 
+// FinalCheck is the end-of-run structure walk (C07 samples the walk on large trees).
+func (s *kvSubj[K]) FinalCheck(o *Oracle) {
+	if o.On("C07") {
+		s.checkShape(o)
+	}
+}
+
 func (s *kvSubj[K]) check(o *Oracle) {
+	if o.On("C07") {
+		// the structure walk is O(n): every step on small trees, sampled on large ones
+		if n := s.m.Size(); n <= 64 || o.cur.ID%(n/32) == 0 {
+			s.checkShape(o)
+		}
+	}
+	if !(o.On("C01") || o.On("C02") || o.On("C09") || o.On("C10") || o.On("C15") || o.On("C16")) {
+		return
+	}
 	keys, vals := s.m.Keys(), s.m.Values()
 	disc := kvDiscipline(s.cfg.Kind)
 	bidi := kvIsBidi(s.cfg.Kind)
@@ -538,9 +554,6 @@ func (s *kvSubj[K]) check(o *Oracle) {
 	}
 	if o.On("C09") && disc == "linked" {
 		s.checkC09(o, keys, vals)
-	}
-	if o.On("C07") {
-		s.checkShape(o)
 	}
 	checkC15(o, s.m, len(vals), len(keys), kvNames[s.cfg.Kind])
 }
